@@ -5,7 +5,9 @@ static HOOK: Once = Once::new();
 /// Install a silent panic hook (panics are an *observed outcome* in these monitors).
 pub fn silence_panics() {
     HOOK.call_once(|| {
-        std::panic::set_hook(Box::new(|_| {}));
+        if std::env::var_os("VERIF_PANIC_VERBOSE").is_none() {
+            std::panic::set_hook(Box::new(|_| {}));
+        }
     });
 }
 /// Run `f`, returning Err(message) if it unwound.
